@@ -331,7 +331,7 @@ func (w *World) Apply(op Op) (v *Violation) {
 			op.V = []byte{} // JSON omits empty values; a nil value is the separate op "setnil"
 		}
 		_, had := w.WKV[string(op.K)]
-		upd, err := t.Set(op.K, op.V)
+		upd, err := t.Set(cp(op.K), cp(op.V)) // the tree gets its own slices: the model never shares memory with it
 		if err != nil || upd != had {
 			return w.viol("set.result", "Set(%q,%q)=%v,%v want updated=%v", op.K, op.V, upd, err, had)
 		}
@@ -351,7 +351,7 @@ func (w *World) Apply(op Op) (v *Violation) {
 		}
 	case "remove":
 		old, had := w.WKV[string(op.K)]
-		val, rm, err := t.Remove(op.K)
+		val, rm, err := t.Remove(cp(op.K))
 		if err != nil || rm != had || !bytes.Equal(val, old) || (had && val == nil) {
 			return w.viol("remove.result", "Remove(%q)=%q,%v,%v want %q,%v", op.K, val, rm, err, old, had)
 		}
